@@ -11,16 +11,16 @@ BASELINE_OFF = "cd /repo && GOFLAGS=-mod=mod GOPROXY=off go test -vet=off -count
 E1 = "bounded exhaustive enumeration (explicit small-scope model checking of the real implementation against a reference oracle)"
 CHECKS = {
  "C01": ("model_checking", E1 + " over build pairs from a block alphabet x every registered compression setting; independent Lstat tree oracle and independent patch decoder",
-  "Every ordered pair of builds of the stated families (block-level F1, shape-level F2 x all 20 compression settings, limit family F3 around 4MiB/8MiB runs) goes through the real WritePatch -> patcher -> fresh bowl; the output tree is compared entry by entry with the new build. Exhaustive within the families.",
+  "Every ordered pair of builds of the stated families (block-level F1, shape-level F2 x all 20 compression settings, limit family F3 around 4MiB/8MiB runs, file-sequence family F4: every ordered triple of new files from a menu of ways to reuse two old files) goes through the real WritePatch -> patcher -> fresh bowl; the output tree is compared entry by entry with the new build. Exhaustive within the families.",
   "Byte values outside the seeded block alphabet are not enumerated; file modes are not compared.", "DESIGN.md#c01"),
  "C02": ("model_checking", E1 + " over tree pairs containing every rename/swap/chain/duplicate/kind change on 2-3 names; pre-commit and post-commit snapshots",
   "All 4096 pairs of P1 (rename relations), all 4096 pairs of P2 (kind changes), block-level P3 with plain and optimized patches, applied in place through the real overlay bowl; old build must be untouched before Commit, directory must equal the new build after. Sub-check map-orders enumerates every iteration order of the maps the commit phase ranges over (pwr/bowl rebuilt with range-over-map rewritten to an explored key order).",
   "Map orders are enumerated for P1 (thorough: P2 too). Known findings: kind changes whose commit phases are ordered wrongly (RC1, RC3, RC4).", "DESIGN.md#c02"),
  "C04": ("model_checking", E1 + " over size tuples x producers x compression; choice-tape DFS (deviation bound 2) over the source pool's read slicing",
-  "All 1-3 file size tuples around block multiples x {stand-alone signing, diff-time signing vs empty / identical old build}; every signature stream read back and compared hash for hash with ComputeSignature and with an independent weak+MD5 reference; read slicings of the shared source reader enumerated by deviation-bounded DFS; pristine build validates clean.",
+  "All 1-3 file size tuples around block multiples x {stand-alone signing, diff-time signing vs empty / identical old build}; every signature stream read back and compared hash for hash with ComputeSignature and with an independent weak+MD5 reference; read slicings of the shared source reader enumerated by deviation-bounded DFS; pristine build validates clean, also when the ValidatorContext was used on a damaged copy before (context-reuse) and for symlink destinations that are not lexically clean.",
   "Short reads are 1 or 16383 bytes at up to 2 Read calls per execution.", "DESIGN.md#c04"),
  "C05": ("fault_enumeration", "exhaustive enumeration of damage sequences (length 1, 2; 3 in thorough) from a boundary-offset damage catalogue, oracle by independent byte comparison",
-  "Every single damage and every pair (thorough: triple) of damages on distinct entries of 4 builds; wounds file decoded independently; every differing offset must lie in a FILE wound, shorter/longer files and wrong kinds must be wounded, wounds well-formed; fail-fast must return an error.",
+  "Every single damage and every pair (thorough: triple) of damages on distinct entries of 4 builds, plus 1..130 consecutive damaged blocks in 70/132-block files; wounds file decoded independently; every differing offset must lie in a FILE wound, shorter/longer files and wrong kinds must be wounded, wounds well-formed; fail-fast must return an error.",
   "Offsets/lengths from the boundary set around every block boundary; two-flip weak-hash collisions included.", "DESIGN.md#c05"),
  "C06": ("model_checking", "stateless model checking of the real Validate + archive healer under a controlled scheduler with file-system calls as visible operations (preemption-bounded DFS with happens-before caching), plus exhaustive fault enumeration of damage sequences (incl. kind swaps hiding subtrees) healed by the free-running code",
   "Builds x all damage sequences of length 1-2 (+ structural triples): Validate with an archive healer must return nil, every signed entry must be present with signed content, fail-fast validation must pass afterwards, a valid directory must not be touched (inode/mtime).",
@@ -40,13 +40,13 @@ CHECKS = {
   "Bounds: alphabets {0,1},{0,1,2}; lengths as in DESIGN C11. Scaled builds change only the MaxDataOp constant. Larger block sizes only via the enumerated real-scale family.",
   "DESIGN.md#c11"),
  "C16": ("model_checking", "stateless model checking of the real Validate under a controlled cooperative scheduler (source-instrumented build): preemption-bounded DFS over goroutine interleavings, select choices and the cancellation instant, with happens-before state caching",
-  "For each scenario (build x damage x consumer x wound-channel capacity {1,2,1024} x canceller) every interleaving up to the stated preemption bound (unbounded for the 1-file build in thorough) is executed on the real code; every execution must end with Validate returned (deadlock = all goroutines parked) and a nil fail-fast verdict only on an undamaged directory. Violations carry the exact schedule and are replayed before being reported.",
+  "For each scenario (build x damage incl. a missing target directory x consumer {fail-fast, wounds writer, writer with uncreatable path, printer, archive healer} x wound-channel capacity {1,2,1024} x canceller) every interleaving up to the stated preemption bound (unbounded for the 1-file build in thorough) is executed on the real code; every execution must end with Validate returned (deadlock = all goroutines parked) and a nil fail-fast verdict only on an undamaged directory. Violations carry the exact schedule and are replayed before being reported.",
   "Code between visible operations is atomic (data races are C15's race pass); custom consumers cannot be injected through Validate; capacity scaling by overlay.", "DESIGN.md#c16"),
  "C17": ("model_checking", E1 + " over builds x ALL subsets of file indices x plain/optimized patches x compression, with a recording bowl and recording pool",
-  "720 orderings of 6 file kinds x all 64 whitelists (plain, optimized, all compression settings on a slice) plus the 2051-old-file family (targetIndex 2048/2049/2050): Resume returns nil, touched count = |subset|, bowl and pool see only whitelisted files, each whitelisted file equals the full application's.",
+  "720 orderings of 6 file kinds x all 64 whitelists, each described by a sparse map (members only) and a dense map (explicit false entries) (plain, optimized, all compression settings on a slice) plus the 2051-old-file family (targetIndex 2048/2049/2050): Resume returns nil, touched count = |subset|, bowl and pool see only whitelisted files, each whitelisted file equals the full application's.",
   "Pool accesses are attributed to the file announced by the patcher's progress label and cross-checked against the series' references.", "DESIGN.md#c17"),
  "C18": ("model_checking", E1 + " over signed sizes x altered-block subsets / length changes x write slicings x {error, wound, aggregated wound} mode, in-memory inner pool",
-  "Every signed size around block multiples x every subset of altered blocks, truncation and extension x all slicings with <=3 cuts at boundary positions plus uniform slicings: error mode must fail at the completing write/close and leak nothing from the bad block on; wound mode must tile the written range in order with exactly the differing blocks wounded.",
+  "Every signed size around block multiples x every subset of altered blocks, truncation and extension, and structured signed contents (zero blocks, repeated blocks) x all slicings with <=3 cuts at boundary positions plus uniform slicings: error mode must fail at the completing write/close and leak nothing from the bad block on; wound mode must tile the written range in order with exactly the differing blocks wounded.",
   "Sub-check wound-interleavings enumerates writer/relay/aggregator/consumer interleavings under the controlled scheduler (unbounded for 1-block files, bound 3 / unbounded for 2 blocks).", "DESIGN.md#c18"),
  "C19": ("model_checking", E1 + " over trees x {zip, tar} x worker counts, and every interruption point of a resumable extraction (deterministic seams), incl. forced out-of-order completion",
   "12 catalogue + 180 shape trees x formats x workers {1,2,3,4,8,16,-1}: extracted tree equals the source, counts equal entries, re-extraction idempotent; 1-worker crash after every entry and at every seam event, and forced out-of-order schedules for 2-3 workers, then restart with the same resume file must complete the tree.",
@@ -70,7 +70,7 @@ CHECKS.update({
   "Scaled: every binary (old,new) up to length 8 and every equality pattern up to 12-13 x every cut and tag (plain, Flush, Flush+resume from reported offsets, resume after stale writes); full scale: run lengths around the 8KiB threshold and the 128KiB window x placements x write sizes. Real OverlayPatchContext.Patch + truncate must give new; reference applier agrees; reported offsets equal bytes consumed/produced.",
   "Scaling changes only the two constants; effective values are probed behaviourally and scaled sub-checks skip otherwise.", "DESIGN.md#c14"),
  "C15": ("model_checking", "stateless model checking of WritePatch, the bsdiff scanner and the optimizer under a controlled cooperative scheduler (preemption-bounded DFS with happens-before state caching over interleavings, select choices, map iteration orders and short reads); separate Go race detector pass on the free-running bodies",
-  "Every interleaving (up to the stated preemption bound per scenario) of the differ's diff/sign/reader goroutines, of the bsdiff workers/dispatcher/collector/suffix-sort goroutines and every map iteration order of the optimizer's analysis must write byte-identical patch, signature, counters, control messages and mappings; no deadlock. Race freedom: the same bodies under -race with GOMAXPROCS 1,2,4,16 (a detector pass, not an enumeration).",
+  "Every interleaving (up to the stated preemption bound per scenario) of the differ's diff/sign/reader goroutines (incl. a 2100-block old signature with repeated block contents), of the bsdiff workers/dispatcher/collector/suffix-sort goroutines and every map iteration order of the optimizer's analysis must write byte-identical patch, signature, counters, control messages and mappings; no deadlock. Large inputs (1.2-1.6MB) diffed under GOMAXPROCS 1,2,4,8,16 must give identical bytes. Race freedom: the same bodies under -race with GOMAXPROCS 1,2,4,16 (a detector pass, not an enumeration).",
   "Code between visible operations is atomic under the scheduler; io.Pipe modelled atomically; data races only through the race-detector pass.", "DESIGN.md#c15"),
 })
 
